@@ -524,6 +524,11 @@ impl NodeStream {
             }
         }
         for (t, (name, got)) in [("routing_table", s.stats), ("signed_peers_routing_table", s.signed_stats)].iter().enumerate() {
+            // an infinite sample poisons the sums for good (inf - inf = NaN once it is withdrawn)
+            if !got.1.is_finite() || !got.3.is_finite() {
+                out.violation("C20", "non-finite-statistics", format!("{name}: size estimate sum = {:e}, responders estimate sum = {:e} over {} / {} samples", got.1, got.3, got.0, got.2));
+                continue;
+            }
             let close = |a: f64, b: f64| (a - b).abs() <= 1e-6 * (1.0 + a.abs().max(b.abs()));
             if got.0 != all[t].0 || !close(got.1, all[t].1) {
                 out.violation("C20", "size-estimate-stats-drift", format!("{name}: dht_size_estimates count/sum = {}/{:.3e} but the cached lookups aggregate to {}/{:.3e}", got.0, got.1, all[t].0, all[t].1));
@@ -1001,6 +1006,9 @@ pub struct VPeer {
     pub ignore_puts: bool,
     /// flags its answers to put requests read-only (ro = 1)
     pub ro_puts: bool,
+    /// lists the requester itself among the closer nodes (what a first node does: it adds the requester
+    /// to its table before it answers)
+    pub echo_requester: bool,
 }
 
 pub struct VNet {
@@ -1028,7 +1036,7 @@ impl VNet {
             let addr = SocketAddrV4::new(ip, 6881);
             let id = Id::from_bytes(rng.id20()).expect("id");
             by_addr.insert(addr, i);
-            peers.push(VPeer { id, addr, alive: true, mode: 0, read_only: false, imm: HashMap::new(), muts: HashMap::new(), peers: HashMap::new(), speers: HashMap::new(), put_reply: 0, forge: 0, extra_delay: 0, put_delay: 0, ignore_gets: false, ignore_puts: false, ro_puts: false });
+            peers.push(VPeer { id, addr, alive: true, mode: 0, read_only: false, imm: HashMap::new(), muts: HashMap::new(), peers: HashMap::new(), speers: HashMap::new(), put_reply: 0, forge: 0, extra_delay: 0, put_delay: 0, ignore_gets: false, ignore_puts: false, ro_puts: false, echo_requester: false });
         }
         VNet { peers, by_addr }
     }
@@ -1043,7 +1051,15 @@ impl VNet {
     }
     /// the honest reply of peer `i` to a request
     pub fn reply(&mut self, i: usize, req: &dht::RequestSpecific, from: SocketAddrV4) -> MessageType {
-        let nodes = |s: &VNet, t: &Id| -> Box<[Node]> { s.closest(t, 8).into_boxed_slice() };
+        let echo = if self.peers[i].echo_requester { Some(Node::new(req.requester_id, from)) } else { None };
+        let nodes = |s: &VNet, t: &Id| -> Box<[Node]> {
+            let mut v = s.closest(t, 8);
+            if let Some(e) = &echo {
+                v.retain(|n| n.address() != s.peers[i].addr || s.peers.len() > 1);
+                v.push(e.clone());
+            }
+            v.into_boxed_slice()
+        };
         let me = self.peers[i].id;
         let token: Box<[u8]> = Self::token_of(&self.peers[i]).into_boxed_slice();
         let forge = self.peers[i].forge;
@@ -2457,6 +2473,38 @@ pub fn run(out: &mut Out, seed: u64, thorough: bool, replay: Option<&str>) {
         }
         d.finish();
         d.out.mark_distinct(fnv(format!("S{kind}").as_bytes()));
+        d.s.shutdown();
+    }
+    // ---- T: a network of two: the only other node lists the requester itself (a first node adds the
+    //         requester to its table before answering), so the node's lookups of its own id see only
+    //         itself as a candidate (C20: the size estimate of such a lookup must stay a number)
+    for n in [1usize, 2] {
+        t0 += 10_000_000_000_000;
+        let mut net = VNet::new(&mut rng, n, true);
+        for p in net.peers.iter_mut() {
+            p.echo_requester = true;
+        }
+        let boot = vec![net.peers[0].addr];
+        let mut d = Driver::new(out, rng.next(), net);
+        d.begin("s", &boot, None, rng.next() % 1_000_000 + 1, t0);
+        d.run_for(2 * SEC, 10 * MS);
+        d.run("snap".into());
+        if let Some(own) = d.s.own_id {
+            for _ in 0..3 {
+                d.api(format!("find_node t={}", hex(own.as_bytes())));
+                d.settle(20 * SEC, 10 * MS);
+                d.run("snap".into());
+            }
+        }
+        // the 15-minute refresh looks the own id up again and replaces the cached lookup
+        d.run_for(16 * 60 * SEC, SEC);
+        d.run("snap".into());
+        let t = Id::from_bytes(rng.id20()).expect("id");
+        d.api(format!("get_peers ih={}", hex(t.as_bytes())));
+        d.settle(20 * SEC, 10 * MS);
+        d.run("snap".into());
+        d.finish();
+        d.out.mark_distinct(fnv(format!("T{n}").as_bytes()));
         d.s.shutdown();
     }
     // ---- I: more than 1000 distinct lookup targets roll the lookup cache (C20)
